@@ -40,6 +40,7 @@ CONSTANTS Mods,       \* module names that may occur in descriptions
           LevelKinds, \* subset of {"node", "module", "param"}
           Kinds,      \* callback kinds: "updateEvent", "updateItem"
           Behs,       \* callback behaviours: "ok", "raise", "oneshot"
+          ErrBehs,    \* behaviours of a user's handleError callback (node level): subset of {"ok", "raise"}
           InitDescs,  \* descriptions the client may start with
           Descs,      \* descriptions it may be given later (reconnect)
           MaxCbs, MaxWait, Depth   \* bounds of the model-checking configurations only
@@ -57,19 +58,23 @@ ErrorActions == {"error_update", "error_read"}
 W0 == CHOOSE w \in Wires : TRUE
 E0 == CHOOSE e \in ENames : TRUE
 X0 == CHOOSE x \in Texts : TRUE
-BadShapes == Shapes \ {"ok"}
+GoodShapes == Shapes \cap {"ok", "okq"}     \* "okq": well formed, with additional qualifiers
+BadShapes == Shapes \ {"ok", "okq"}
 
 (* messages: [action, ident, shape, w, t, en, tx]; irrelevant fields are fixed *)
 Msgs ==
-  [action : ValueActions, ident : Idents, shape : {"ok"}, w : Wires, t : Stamps, en : {E0}, tx : {X0}]
+  [action : ValueActions, ident : Idents, shape : GoodShapes, w : Wires, t : Stamps, en : {E0}, tx : {X0}]
   \cup [action : ValueActions, ident : Idents, shape : BadShapes, w : {W0}, t : {NoT}, en : {E0}, tx : {X0}]
-  \cup [action : ErrorActions, ident : Idents, shape : {"ok"}, w : {W0}, t : Stamps, en : ENames, tx : Texts]
+  \cup [action : ErrorActions, ident : Idents, shape : GoodShapes, w : {W0}, t : Stamps, en : ENames, tx : Texts]
   \cup [action : ErrorActions, ident : Idents, shape : BadShapes, w : {W0}, t : {NoT}, en : {E0}, tx : {X0}]
 
 Levels == (IF "node" \in LevelKinds THEN {NodeL} ELSE {})
           \cup (IF "module" \in LevelKinds THEN {<<m, "">> : m \in Mods} ELSE {})
           \cup (IF "param" \in LevelKinds THEN AllKeys ELSE {})
-CbSpace == [level : Levels, kind : Kinds, beh : Behs]
+(* a user's handleError callback: called by the client on malformed messages / failing callbacks (how  *)
+(* often is not decided here); it must never influence cache, update callbacks or the processing        *)
+ErrCbs == [level : {NodeL}, kind : {"handleError"}, beh : ErrBehs]
+CbSpace == [level : Levels, kind : Kinds, beh : Behs] \cup ErrCbs
 ReqKeys == {"reply", "changed"} \X Idents
 NoReq == <<"none", NoKey>>
 
@@ -89,7 +94,7 @@ Resolve(a, id, d) ==
 
 IsValue(msg) == msg.action \in ValueActions
 Handled(msg, d) == /\ Resolve(msg.action, msg.ident, d) # NoKey
-                   /\ msg.shape = "ok"
+                   /\ msg.shape \in {"ok", "okq"}
                    /\ IsValue(msg) => msg.w \in ValidW
 
 MinT(a, b) == IF a <= b THEN a ELSE b
@@ -102,9 +107,10 @@ AllowedEntries(msg, n) ==
   IF IsValue(msg) THEN {[val |-> msg.w, ts |-> TS(msg.t, n), err |-> NoErr]}
   ELSE {[val |-> "null", ts |-> TS(msg.t, n), err |-> x] : x \in AllowedErr(msg.en, msg.tx)}
 
-Matches(c, k) == \/ c.level = NodeL
-                 \/ c.level[2] = "" /\ c.level[1] = k[1]
-                 \/ c.level = k
+Matches(c, k) == /\ c.kind # "handleError"
+                 /\ \/ c.level = NodeL
+                    \/ c.level[2] = "" /\ c.level[1] = k[1]
+                    \/ c.level = k
 
 RKey(msg) == IF msg.action \in {"reply", "error_read"} THEN <<"reply", msg.ident>>
              ELSE IF msg.action = "changed" THEN <<"changed", msg.ident>> ELSE NoReq
@@ -164,6 +170,10 @@ Expect(rk) ==
   /\ last' = [kind |-> "expect", rk |-> rk]
   /\ UNCHANGED <<desc, cache, cbs, now>>
 
+(* nothing arrives for a while (the receive loop times out on the line and goes on) *)
+Idle == /\ last' = [kind |-> "idle"]
+        /\ UNCHANGED <<desc, cache, cbs, waiting, now>>
+
 Tick == /\ now < MaxNow
         /\ now' = now + 1
         /\ last' = [kind |-> "tick"]
@@ -183,6 +193,7 @@ Next == \/ \E msg \in Msgs :
         \/ \E c \in cbs : Unregister(c)
         \/ \E rk \in ReqKeys : Expect(rk)
         \/ Tick
+        \/ Idle
         \/ \E d \in Descs : Describe(d)
 
 Spec == Init /\ [][Next]_vars
@@ -249,7 +260,9 @@ Covers(r, s) ==   \* r carries everything the caller passed in s (optional struc
   ELSE IF s.j = "seq" THEN Len(r.e) = Len(s.e) /\ \A i \in 1 .. Len(s.e) : Covers(r.e[i], s.e[i])
   ELSE DOMAIN s.m \subseteq DOMAIN r.m /\ \A f \in DOMAIN s.m : Covers(r.m[f], s.m[f])
 
-E2EReceived(r) == r.op = "write" => r.nrecv >= 1 /\ Covers(r.received, r.sent)
-E2ECache(r) == r.op \in {"write", "read"} => r.cache = r.returned
-E2EError(r) == r.op = "readerr" => r.cache = r.raised
+(* ops: write / writestr (setParameter, setParameterFromString), do (execCommand: cache = result handed to the  *)
+(* caller), read, announce (spontaneous update of the driver), readerr / writeerr (driver raises)             *)
+E2EReceived(r) == r.op \in {"write", "writestr", "do"} => r.nrecv >= 1 /\ Covers(r.received, r.sent)
+E2ECache(r) == r.op \in {"write", "writestr", "do", "read", "announce"} => r.cache = r.returned
+E2EError(r) == r.op \in {"readerr", "writeerr"} => r.cache = r.raised
 =============================================================================
